@@ -469,7 +469,7 @@ impl Check for C06C {
         match stage {
             "catalogue" => Box::new(Listed { docs: three_docs(), cases: catalogue() }),
             "well-typed" => Box::new(Listed { docs: three_docs(), cases: xgen::expressions(true).iter().map(|e| (canonical(e), "well-typed", false)).collect() }),
-            "garbage" => Box::new(Garbage::new(tier.pick(3, 4))),
+            "garbage" => Box::new(Garbage::new(tier.pick(3, 5))),
             _ => {
                 let mut docs = three_docs();
                 docs.push(deep_doc());
@@ -485,7 +485,7 @@ impl Check for C06C {
         Meta {
             rule: "xml_xpath::query in supervised worker processes (panic, abort, hang attributed to the exact expression) on four documents (plain; comments/PIs; DTD default + references; xml:lang values incl. non-ASCII). Stage catalogue: variable references and id() in 18 syntactic positions (error or empty node-set required where the result is a node-set), 34 steps that select nothing (parent of the root / attribute / namespace node, sibling axes from attributes, ...), every core function and several unknown ones at every arity 0..4 with every argument type (node-sets incl. attribute and namespace nodes, NaN, infinities, negative, huge, strings, booleans), ~170 ill-formed or ill-typed strings. Stage well-typed: the C05 expression families. Stage garbage: ALL token strings of length <= L over 41 tokens. Stage families: 32 hostile shapes (nested parentheses / predicates / calls, long unions, chains, paths, runs of - / * [ ., huge literals and numbers) with sizes doubling until a soft time cap; a member over the cap whose predecessor was >= 16x faster is a blow-up. Acceptable outcomes: a value or an error. Non-trivial = the query returned a value.",
             bounds_quick: "garbage length <= 3 (41 tokens = 70k strings) x 6 documents; families to 2^13..2^18, soft cap 1 s, hard cap 20 s per case",
-            bounds_thorough: "garbage length <= 4 (2.9M strings) x 6 documents; soft cap 3 s, hard cap 60 s",
+            bounds_thorough: "garbage length <= 5 (118.8M strings) x 6 documents; soft cap 3 s, hard cap 60 s",
             assumptions: &["the worker's main thread has the default 8 MiB stack", "time verdicts are caps, not complexity measurements"],
             unbounded_total: false,
         }
